@@ -240,6 +240,58 @@ def oracle(case, impl):
     return None
 
 
+def gen_nonfinite(rng):
+    """a history in which some published values are NaN (a missing-value marker) or infinite: the adapters serve what their
+    definition gives in IEEE arithmetic — a NaN / an infinity in a bracketing publication shows in the interpolant"""
+    c = gen_case(rng, 30)
+    c.pop("mag", None)
+    pushes = [ev for ev in c["events"] if ev[0] == "push"]
+    for ev in rng.sample(pushes, max(1, len(pushes) // 3)):
+        k = rng.randrange(len(ev[2]))
+        ev[2] = [float(v) for v in ev[2]]
+        ev[2][k] = rng.choice([float("nan"), float("nan"), float("inf"), float("-inf")])
+    c["nonfinite"] = True
+    return c
+
+
+def _fdef(kind, pos, hist, t, cell):
+    le = [e for e in hist if e[0] <= t]
+    ge = [e for e in hist if e[0] >= t]
+    lo, hi = le[-1], ge[0]
+    vlo, vhi = float(lo[1][cell]), float(hi[1][cell])
+    if lo[0] == hi[0]:
+        return vlo
+    if kind == "next":
+        return vhi
+    if kind == "prev":
+        return vlo
+    w = (t - lo[0]) / (hi[0] - lo[0])
+    if kind == "linear":
+        return vlo + w * (vhi - vlo)
+    return vhi if F(t - lo[0], hi[0] - lo[0]) > F(*pos) else vlo
+
+
+def oracle_nonfinite(case, impl):
+    import math
+    kind, pos, nc = case["kind"], case["pos"], ncells(case["shape"])
+    hist, last = [], None
+    for i, ev in enumerate(case["events"]):
+        if ev[0] == "push":
+            hist.append((ev[1], ev[2]))
+            continue
+        t, a = ev[1], impl["answers"][i]
+        if (last is not None and t < last) or not hist or t < hist[0][0] or t > hist[-1][0] or not a or "ok" not in a:
+            continue
+        last = t
+        for c in range(nc):
+            want, got = _fdef(kind, pos, hist, t, c), a["ok"][c]
+            same = (math.isnan(want) and math.isnan(got)) or want == got or (math.isfinite(want) and math.isfinite(got) and close(got, want))
+            if not same:
+                return (f"{kind} interpolation must equal its definition on the full publication history (also with NaN / infinite values published)",
+                        {"event": i, "time": t, "cell": c, "got": repr(got), "expected": repr(want)})
+    return None
+
+
 def check_cases(cases, res):
     models = common.lean_batch([model_request(c) for c in cases])
     for c, m in zip(cases, models):
@@ -297,6 +349,13 @@ def run(ctx, res):
                        "a gridded payload is modelled as independent scalar series per cell"]
     cases = corpus() + [gen_case(ctx.rng, ctx.n(40, 70)) for _ in range(ctx.n(500, 8000))]
     check_cases(cases, res)
+    for _ in range(ctx.n(60, 800)):
+        c = gen_nonfinite(ctx.rng)
+        res.case(c, True)
+        res.count("part", "non-finite-values")
+        o = oracle_nonfinite(c, run_impl(c))
+        if o:
+            res.fail(c, o[0], o[1])
     # the adapter's buffer on disk (memory limit) with masked payloads whose masks live in the data: same answers as
     # without a limit (engines/spillmask.py)
     for n in range(ctx.n(40, 600)):
@@ -309,6 +368,13 @@ def run(ctx, res):
 
 
 def search(ctx, res, divergences, broken):
+    for _ in range(200):
+        c = gen_nonfinite(ctx.rng)
+        res.case(c, True)
+        o = oracle_nonfinite(c, run_impl(c))
+        if o:
+            res.fail(c, o[0], o[1])
+            return
     for n in range(150):
         c = spillmask.gen(ctx.rng, ["next", "prev", "linear", "step"])
         o, _sp = spillmask.check(c, os.path.join(ctx.scratch(), f"smw{n}"))
@@ -329,7 +395,7 @@ def search(ctx, res, divergences, broken):
 
 def shrink(ctx, f):
     case = f["case"]
-    if case.get("part") == "spillmask":
+    if case.get("part") == "spillmask" or case.get("nonfinite"):
         return f
     evs = list(case["events"])
     changed = True
@@ -353,6 +419,9 @@ def replay(ctx, rp):
     case = rp.get("input") or (rp.get("diverging_case") or {}).get("case")
     if case.get("part") == "spillmask":
         o, _sp = spillmask.check(case, os.path.join(ctx.scratch(), "smreplay"))
+        return {"fails": bool(o), "oracle": o}
+    if case.get("nonfinite"):
+        o = oracle_nonfinite(case, run_impl(case))
         return {"fails": bool(o), "oracle": o}
     impl = run_impl(case)
     o = oracle(case, impl)
